@@ -306,4 +306,7 @@ mod verif_k {
         }
         kani::cover!(n == 4 && b[0] == 0x30 && b[1] == 2, "constructed with inner TLV reachable");
     }
+
+    // (the same harness restricted to <= 2 or <= 3 bytes did not finish in 7-10 min either: CBMC's cost is dominated by
+    //  the unwound recursive instance, not by the buffer size, so there is no quick-tier variant)
 }
